@@ -157,3 +157,166 @@ Definition ok02 (c : case02) : bool :=
 Definition chk02 (c : case02) : bool * bool * N :=
   let m := model02 c in
   (list_eqb N.eqb (fst m) (d_res c) && eobs_eqb (snd m) (d_err c), ok02 c, 0).
+
+
+(** ** C01 extension: sequences of Verify calls on type-level results that are Go objects
+    (argument-dependent verifier given as a lookup table, wrapper identities, typed nil,
+    kept *VerifyError instances) *)
+Inductive xobs :=
+| XONil
+| XOSent (s : sentinel) (soft : bool)
+| XOType (e : N) (soft : bool) (via : option N)  (* via: the wrapper errors.As still finds in the result *)
+| XONilPtr                                        (* the error is a nil *VerifyError *)
+| XOPanic
+| XOOther.
+
+Definition xobs_eqb (a b : xobs) : bool :=
+  match a, b with
+  | XONil, XONil | XONilPtr, XONilPtr | XOPanic, XOPanic => true
+  | XOSent s x, XOSent s' x' => sent_eqb s s' && Bool.eqb x x'
+  | XOType e x v, XOType e' x' v' => (e =? e') && Bool.eqb x x' && option_eqb N.eqb v v'
+  | _, _ => false
+  end.
+
+Definition xobs_of (x : xres) : xobs :=
+  match x with
+  | XNil => XONil
+  | XErr (RSent s) soft _ => XOSent s soft
+  | XErr (RType e) soft via => XOType e soft via
+  | XErr _ _ _ => XOOther
+  | XNilPtr => XONilPtr
+  | XPanic => XOPanic
+  end.
+
+Record xcall := XCall { k_now : Z; k_t : hdr; k_u : hdr; k_obs : xobs }.
+Record case01x := Case01x {
+  x_drift : Z;
+  x_tab : list (N * N * tvx);   (* (hash of trusted, hash of untrusted) -> what the type's Verify answers; XOk elsewhere *)
+  x_soft0 : list N;             (* the kept instances whose SoftFailure the TYPE set (initial memory) *)
+  x_calls : list xcall }.
+
+Definition tab_tv (tab : list (N * N * tvx)) (t u : hdr) : tvx :=
+  match find (fun p => (fst (fst p) =? h_id t) && (snd (fst p) =? h_id u)) tab with
+  | Some p => snd p
+  | None => XOk
+  end.
+Definition heap0 (l : list N) : heap := fun c => existsb (N.eqb c) l.
+
+Definition model01x (c : case01x) : list xobs :=
+  map xobs_of (fst (Verify_seq (x_drift c) (tab_tv (x_tab c)) (heap0 (x_soft0 c))
+                               (map (fun k => (k_now k, k_t k, k_u k)) (x_calls c)))).
+
+Definition tvx_is_nilptr (r : tvx) : bool := match r with XTypedNil => true | _ => false end.
+Definition tvx_is_ok (r : tvx) : bool := match r with XOk => true | _ => false end.
+Definition tvx_cell (r : tvx) : option N := match r with XShared _ c _ => Some c | _ => None end.
+
+(** the property on ONE observed call, memory-free: SoftFailure exactly when the header is
+    non-adjacent or the TYPE reported soft ([h0]: what the type itself put into its objects) *)
+Definition ok_call (drift : Z) (tv : hdr -> hdr -> tvx) (h0 : heap) (k : xcall) : bool :=
+  let ff := first_failing (k_now k) drift (k_t k) (k_u k) in
+  let r := tv (k_t k) (k_u k) in
+  match k_obs k with
+  | XONil => match ff with None => tvx_is_ok r | Some _ => false end
+  | XOSent s soft => negb soft && match ff with Some s' => sent_eqb s s' | None => false end
+  | XOType e soft _ =>
+    match ff, tvx_err_id r with
+    | None, Some e' => (e =? e') && Bool.eqb soft (negb (adjacent (k_t k) (k_u k)) || tvx_soft h0 r)
+    | _, _ => false
+    end
+  | XONilPtr | XOPanic => match ff with None => tvx_is_nilptr r | Some _ => false end   (* no acceptance; a type-level bug *)
+  | XOOther => false
+  end.
+
+Definition chk01x (c : case01x) : bool * bool * N :=
+  (list_eqb xobs_eqb (model01x c) (map k_obs (x_calls c)),
+   forallb (ok_call (x_drift c) (tab_tv (x_tab c)) (heap0 (x_soft0 c))) (x_calls c), 0).
+  (* F32 (fixed by /repo dd31b07) had class 1 here: an adjacent failure reported soft after a
+     non-adjacent one with the same kept instance; its witness stays in the driver's corpus *)
+
+(** the model's own observation of a call satisfies the property whenever the memory still
+    shows what the type put there (always: since /repo dd31b07 no call writes, seq_no_write) *)
+Theorem model_call_ok drift tv h0 h now t u :
+  tvx_soft h (tv t u) = tvx_soft h0 (tv t u) ->
+  ok_call drift tv h0 (XCall now t u (xobs_of (fst (Verify_x now drift tv h t u)))) = true.
+Proof.
+  intros Hs. unfold ok_call, Verify_x; cbn [k_now k_t k_u k_obs].
+  rewrite first_failing_eq.
+  destruct (verify_mand now drift t u) as [s|]; cbn.
+  - destruct s; reflexivity.
+  - destruct (tv t u) as [|e|s e|w s e| |w c e]; cbn in Hs |- *;
+      destruct (adjacent t u); cbn; rewrite ?N.eqb_refl; cbn; try reflexivity;
+      try (destruct s; reflexivity).
+    rewrite Hs, Bool.eqb_reflx. reflexivity.
+Qed.
+
+(** ... and so does every observation the model makes of a whole case (the memory is never written) *)
+Theorem model01x_ok : forall drift tab soft0 (calls : list (Z * hdr * hdr)),
+  let tv := tab_tv tab in
+  let h0 := heap0 soft0 in
+  forallb (ok_call drift tv h0)
+    (map (fun p => XCall (fst (fst (fst p))) (snd (fst (fst p))) (snd (fst p)) (xobs_of (snd p)))
+         (combine calls (fst (Verify_seq drift tv h0 calls)))) = true.
+Proof.
+  intros drift tab soft0 calls tv h0.
+  destruct (seq_no_write drift tv calls h0) as [_ ->].
+  induction calls as [|[[now t] u] r IH]; cbn; [reflexivity|].
+  rewrite IH, Bool.andb_true_r. apply model_call_ok. reflexivity.
+Qed.
+
+(** ** C02 under the link policy: the type-level check sees the ROLLING trusted header *)
+Record case02l := Case02l {
+  l_now : Z; l_drift : Z; l_trust : N; l_t : hdr; l_in : list hdr; l_res : list N; l_err : eobs }.
+
+Definition model02l (c : case02l) : list N * eobs :=
+  let '(v, e) := VerifyRange (l_now c) (l_drift c) (vlink_tv (l_trust c)) (l_t c) (l_in c) in
+  (map h_id v, obs_of e).
+
+Fixpoint linked_b (t : hdr) (l : list hdr) : bool :=
+  match l with [] => true | u :: r => (h_prev u =? h_id t) && linked_b u r end.
+Fixpoint times_b (t : hdr) (l : list hdr) : bool :=
+  match l with [] => true | u :: r => (h_time t <=? h_time u)%Z && (h_height t <? h_height u) && times_b u r end.
+
+Definition ok02l (c : case02l) : bool :=
+  let l := l_in c in
+  let tv := vlink_tv (l_trust c) in
+  match take_hdrs (l_res c) l with
+  | None => false
+  | Some v =>
+    chain_verified_b (l_now c) (l_drift c) tv (l_t c) v
+    && consecutive_b v
+    && times_b (l_t c) v
+    && match v with [] => true | a :: r => linked_b a r end
+    && is_verr_obs (l_err c)
+    && Bool.eqb (is_nil_obs (l_err c)) (Nat.eqb (length v) (length l) && negb (Nat.eqb (length l) 0))
+    && (is_nil_obs (l_err c) ||
+        match skipn (length v) l with
+        | [] => Nat.eqb (length l) 0
+        | u :: _ =>
+          match Verify (l_now c) (l_drift c) tv (last v (l_t c)) u with
+          | Some _ => true
+          | None => negb (Nat.eqb (length v) 0) && negb (wrap64 (h_height (last v (l_t c)) + 1) =? h_height u)
+          end
+        end)
+  end.
+
+Definition chk02l (c : case02l) : bool * bool * N :=
+  let m := model02l c in
+  (list_eqb N.eqb (fst m) (l_res c) && eobs_eqb (snd m) (l_err c), ok02l c, 0).
+
+(** the two checks the link policy adds hold of everything the model returns *)
+Lemma linked_b_spec t l : linked_from t l -> linked_b t l = true.
+Proof. revert t. induction l as [|u r IH]; intros t; cbn; [auto|]. intros [-> H]. rewrite N.eqb_refl. cbn. auto. Qed.
+Lemma times_b_spec t l : times_from t l -> heights_from t l -> times_b t l = true.
+Proof.
+  revert t. induction l as [|u r IH]; intros t; cbn; [auto|]. intros [Ht H] [Hh H'].
+  rewrite (IH u H H'). destruct (Z.leb_spec (h_time t) (h_time u)), (N.ltb_spec (h_height t) (h_height u)); auto; lia.
+Qed.
+Theorem model02l_linked_times now drift trust t l :
+  let v := fst (VerifyRange now drift (vlink_tv trust) t l) in
+  times_b t v = true /\ match v with [] => true | a :: r => linked_b a r end = true.
+Proof.
+  intros v. split.
+  - destruct (range_times_heights now drift (vlink_tv trust) t l). apply times_b_spec; assumption.
+  - pose proof (range_link_policy trust now drift t l) as H. fold v in H.
+    destruct v; [reflexivity|]. apply linked_b_spec, H.
+Qed.
